@@ -61,12 +61,15 @@ TEXT['C01'] = dict(
     note=BOUNDED_NOTE + 'Found and fixed a genuine defect this way (fix: 83dc206).',
     technique='bounded run-time checking of the real code under simulated MPI (stand-in for the planned view-model proof)')
 TEXT['C02'] = dict(
-    category='other',
-    text='Bounded stand-in: exhaustive check of the block decomposition for all 1<=p<=n<=N and of every Grid accessor / buffer size '
-         'on production and random process grids. The deductive proof of Layout.__init__ is being added.',
-    note=BOUNDED_NOTE + 'Found and fixed Grid.getEta (fix: 8880526).',
-    technique='bounded run-time checking (exhaustive small box) of the real classes')
-
+    category='proof',
+    text='Layout.__init__ is executed symbolically for every ordering of rank 2-4 and 1-2 given process counts (structural cases; '
+         'quick: production orderings + a seeded sample) with symbolic extents, process counts and rank coordinates; the contract '
+         'is the property: ranges tile [0,n) in rank order, lengths in {n//p, n//p+1} and >= 1, starts/ends/shape/size/'
+         'max_block_shape (an attained upper bound)/fullShape/inverse ordering agree. The bounded part checks the Grid accessors '
+         'and buffer sizes on simulated process grids and the partition exhaustively on a box.',
+    note=PROOF_NOTE + 'Grid accessors and "buffers of bufferSize suffice" are covered by the bounded part (and, for the transposes, '
+         'by the C01/C03/C04 checks); found and fixed Grid.getEta (fix: 8880526).',
+    technique='symbolic execution of the constructor per structural case, expression arrays for the numpy formula, z3 (div/mod)')
 TEXT['C03'] = dict(
     category='other',
     text='Bounded stand-in only so far: the real LayoutSwapper (scatter, gather and same-distribution branches, redirects) runs on '
@@ -75,13 +78,17 @@ TEXT['C03'] = dict(
     note=BOUNDED_NOTE,
     technique='bounded run-time checking of the real code under simulated MPI')
 TEXT['C04'] = dict(
-    category='other',
-    text='Bounded stand-in only so far: every short operation sequence (exhaustive) and seeded long sequences on the real Grid are '
-         'compared step by step with a single undistributed numpy array, including the refusal rules. The inductive class-invariant '
-         'proof is planned (DESIGN C04).',
-    note=BOUNDED_NOTE,
-    technique='bounded exhaustive/randomised sequence checking of the real class against a global-array model')
-
+    category='proof',
+    text='Grid.setLayout / saveGridValues / freeGridSave / restoreGridValues / getAllData are verified against an inductive class '
+         'invariant over a ghost model (one undistributed array: field, layout, optional saved field and layout): the three buffer '
+         'indices stay a permutation, the data buffer holds the field in the current layout, a held save is intact, and the refusal '
+         'rules hold - hence the property for every operation sequence, with and without save memory. Buffers are opaque (content = '
+         '"holds field G in layout L" or garbage); the layout manager is used only through the contract of transpose. Bounded part: '
+         'exhaustive short and random long sequences on the real class under simulated MPI.',
+    note=PROOF_NOTE + 'Assumed here: the contract of LayoutHandler/LayoutSwapper.transpose (its dispatch and redirect logic is proved in '
+         'C01/C03, the single-step transposes are covered by bounded stand-ins); Grid.__init__ establishing the invariant and writes '
+         'through getAllData() are covered by the bounded part only.',
+    technique='inductive class invariant with ghost state over opaque buffers, modular use of the transpose contract, z3')
 TEXT['C06'] = dict(
     category='other',
     text='Deductive part: Grid.getMin/getMax (local, whole grid, one and two fixed axes), getBlockForFig, '
